@@ -129,7 +129,8 @@ def _is_log_call(call):
     return False
 
 
-_SAFE_CALLS = {"format", "str", "join", "len", "repr", "int", "float", "list", "tuple", "type", "id"}
+_SAFE_CALLS = {"format", "str", "join", "len", "repr", "int", "float", "list", "tuple", "type", "id",
+               "_pretty_format_handler"}
 
 
 def _args_are_pure(call):
@@ -201,6 +202,16 @@ class Normaliser:
                     return None
             s.body = self.block(s.body)
             s.orelse = self.block(s.orelse) if s.orelse else []
+            return s
+        if isinstance(s, ast.For) and not s.orelse:
+            body = self.block(s.body)
+            call_free = not any(isinstance(n, ast.Call) and not (isinstance(n.func, ast.Name) and n.func.id in
+                                                                 ("list", "tuple", "enumerate", "sorted", "reversed"))
+                                for n in ast.walk(s.iter))
+            if all(isinstance(b, ast.Pass) for b in body) and call_free and self.dropped:
+                self._drop(s, "loop whose body is only logging")
+                return None
+            s.body = body
             return s
         for fld in ("body", "orelse", "finalbody"):
             if hasattr(s, fld) and isinstance(getattr(s, fld), list) and getattr(s, fld) and \
